@@ -211,7 +211,7 @@ class SeededRng(object):
 SEEDS = (0, 1, 12345, 2 ** 32 - 1)
 
 
-def seed_unit(rname):
+def seed_unit(rname, seeds=None, sizes=(1, 3)):
     from pygom.utilR import distn
     import scipy.stats
 
@@ -243,8 +243,8 @@ def seed_unit(rname):
                         return s.uniform(0, 1, size=size)
                 return D()
         from .stoch import global_rng
-        for seed in SEEDS:
-            for n in (1, 3):
+        for seed in (seeds or SEEDS):
+            for n in sizes:
                 with global_rng(glob), stubs.patched((np.random, "RandomState", RS), (distn, "st", St()),
                                                       (np.random, "get_state", glob.get_state)):
                     a = f(n, seed=seed, **kwargs)
@@ -255,7 +255,7 @@ def seed_unit(rname):
                 c.prove(len(fa) == n and len(fb) == n, "%s(n=%d) returns n draws" % (rname, n))
                 c.prove(all_close(fa, fb, c) if len(fa) == len(fb) else False,
                         "%s(n=%d, seed=%d) twice (global generator advanced in between) returns the same draws" % (rname, n, seed))
-    return Unit("C19.seed.%s" % rname, h, bounds={"n": [1, 3], "seeds": list(SEEDS), "between_calls": "one unseeded draw from the global generator"}, max_paths=20, replay=lambda vals, label: replay_seed(rname))
+    return Unit("C19.seed.%s%s" % (rname, "" if seeds is None else "[more seeds and sizes]"), h, bounds={"n": list(sizes), "seeds": list(seeds or SEEDS), "between_calls": "one unseeded draw from the global generator"}, max_paths=20, replay=lambda vals, label: replay_seed(rname))
 
 
 def replay_seed(rname):
@@ -292,6 +292,9 @@ class C19(Check):
         us = [dpq_unit(e) for e in spec_table()]
         us.append(nbinom_unit())
         us += [seed_unit(r) for r in ("rexp", "rgamma", "rnorm", "rchisq", "runif", "rpois", "rbinom")]
+        if tier != "quick":
+            more = (2, 7, 42, 2 ** 16, 2 ** 31 - 1, 2 ** 31, 2 ** 32 - 2)
+            us += [seed_unit(r, seeds=more, sizes=(1, 2, 5)) for r in ("rexp", "rgamma", "rnorm", "rchisq", "runif", "rpois", "rbinom")]
         return us
 
 
